@@ -131,8 +131,16 @@ def leaf(draw, dim, ctx, hint):
                 delta = [base[i] - o[i] for i in range(2)]
                 q["v0"] = [_r(oP["v0"][i] + delta[i], 4) for i in range(2)]
                 return q
-            return {"t": kind, "var": var, "o": oP,
-                    "c1": shifted([o[0] + d1[0], o[1] + d1[1]]),
+            c1P = shifted([o[0] + d1[0], o[1] + d1[1]])
+            if oP["k"] == "affine" and draw(st.integers(0, 2)) == 0:
+                # shape-changing dependence: corner_1 additionally moves away from the origin along
+                # side 1 (the side gets up to 80% longer over the parameter range; angles unchanged)
+                dv, lo_, hi_ = ctx.dep[oP["var"]]
+                stretch = draw(num(0.2, 0.8)) / (max(hi_ - lo_, 1e-9) * dv)
+                c1P = dict(c1P)
+                c1P["V1"] = [[_r(oP["V1"][i][j] + stretch * d1[i], 4) for j in range(dv)] for i in range(2)]
+                c1P["v0"] = [_r(c1P["v0"][i] - stretch * d1[i] * lo_ * dv, 4) for i in range(2)]
+            return {"t": kind, "var": var, "o": oP, "c1": c1P,
                     "c2": shifted([o[0] + d2[0], o[1] + d2[1]])}
         # fixed polygons (ShapelyPolygon cannot depend on parameters)
         shape = draw(st.sampled_from(["L", "ngon", "holed"]))
@@ -226,7 +234,7 @@ def expr(draw, dim, ctx, depth, hint=None, ops=("union", "cut", "isect", "transl
         hint = ([draw(num(-lim, lim)) for _ in range(dim)], size)
     if depth <= 0 or draw(st.integers(0, 9)) < 3:
         return draw(leaf(dim, ctx, hint))
-    choices = [o for o in ops if not (o == "rotate" and dim != 2)]
+    choices = [o for o in ops if not (o == "rotate" and dim == 1)]
     op = draw(st.sampled_from(choices))
     if op in ("union", "cut", "isect"):
         a = draw(expr(dim, ctx, depth - 1, hint, ops))
@@ -241,6 +249,12 @@ def expr(draw, dim, ctx, depth, hint=None, ops=("union", "cut", "isect", "transl
     if op == "translate":
         return {"t": "translate", "a": a,
                 "v": draw(_vec_param(ctx, [draw(num(-3, 3)) for _ in range(dim)], 1.5))}
+    if dim == 3:
+        around = None
+        if draw(st.booleans()):
+            around = const([draw(num(-2, 2)) for _ in range(3)])
+        return {"t": "rotate", "a": a, "euler": [draw(num(-3.2, 3.2)) for _ in range(3)], "around": around,
+                "form": "matrix3"}
     form = draw(st.sampled_from(["angles", "angles", "matrix", "matrix_fn"]))
     ang = draw(st.one_of(num(-6.3, 6.3), st.sampled_from([0.0, math.pi / 2, math.pi, math.pi / 4])))
     angle = draw(_vec_param(ctx, [ang], 3.0)) if form != "matrix" else const([ang])
